@@ -1,10 +1,11 @@
 //go:build verif
 
 // Gate points for the C13 verification harness (/verif): the endpoint index calls verifGate at
-// the two lock-region boundaries that matter for concurrent updates and deletes
-// ("update:after-lookup": UpdateServiceEndpoints holds the *EndpointShards it looked up or created
-// and no lock yet; "delete:before-unlink": deleteServiceInner is about to remove an empty
-// EndpointShards from the index, holding both locks). The harness installs a callback that parks
+// the lock-region boundaries that matter for concurrent updates and deletes
+// ("lookup:after-miss": GetOrCreateEndpointShard did not find the shards under the read lock and
+// is about to take the write lock; "update:after-lookup": UpdateServiceEndpoints holds the
+// *EndpointShards it looked up or created and no lock yet; "delete:before-unlink":
+// deleteServiceInner is about to remove an empty EndpointShards from the index, holding both locks). The harness installs a callback that parks
 // the calling goroutine so that interleavings can be scripted. Built only with -tags verif; the
 // default callback does nothing.
 package model
